@@ -1,7 +1,8 @@
 """C01 - docstring round trip (rest / numpydoc / google)."""
-from vf.props import C01_ded, rt_props
+from vf.props import C01_ded, C02, rt_props
 
 
 def check(run, record_expected=False):
     return rt_props.check_rt(run, "C01", ["rest", "numpydoc", "google"], C01_ded.KEYS, "C01 docstring round trip",
-                             evaluated=[("doctrans.docstring_utils:TOKENS", C01_ded.token_hygiene())], record_expected=record_expected)
+                             evaluated=[("doctrans.docstring_utils:TOKENS", C01_ded.token_hygiene()), ("doctrans.defaults_utils:needs_quoting", C02.nq_scalars())],
+                             record_expected=record_expected)
